@@ -236,7 +236,9 @@ def handle (op : String) (req : Json) : P (List (String × Json)) := do
     let a ← match as with | a :: _ => pure a | [] => throw "no array"
     let tmpl ← listOf axis (← fld req "template")
     let fk ← kind (← fld req "fillkind")
-    pure [("lib", encExcept encDimArray (Lib.reindexLike a tmpl Cell.fill fk false none))]
+    let re ← bool (fldD req "raise" (Json.bool false))
+    let m ← optOf side (fldD req "method" Json.null)
+    pure [("lib", encExcept encDimArray (Lib.reindexLike a tmpl Cell.fill fk re m))]
   | "construct_group" => do
     let shape ← listOf nat (← fld req "shape")
     let vk ← kind (fldD req "vkind" (Json.str "f"))
